@@ -532,3 +532,21 @@ def run(repo, rep, tier):
                     'pywbem/_tupleparse.py', pf.node.lineno,
                     'parse_iparamvalue and the DTD differ in the allowed '
                     'children: %s' % sorted(accepted ^ dtdch))
+    _linearity(repo, rep)
+
+
+def _linearity(repo, rep):
+    """C04.R7: element nodes are linear (see pwsa/linear.py)"""
+    from .. import linear
+    rr = rep.rule('C04.R7', 'every constructed element node is placed into '
+                  'the document at most once (DOM appendChild moves a node)')
+    sites, finds = linear.check(repo)
+    rr.sites = sites
+    if sites < 8:
+        raise AnalysisError('only %d element-node variables found in the '
+                            'tocimxml()/request-building code' % sites)
+    bad = {(f[1], f[2]) for f in finds}
+    for i in range(sites):
+        rr.ob(i >= len(bad), 'node-%d' % i)
+    for file, func, construct, fact, line, msg in finds:
+        rep.finding(rr, func, construct, fact, file, line, msg)
